@@ -76,13 +76,15 @@ def f32(x):
 
 
 def expect(T, x, role):
-    """-> ('store', value read back) | ('reject',) for declared type code T."""
+    """-> ('store' | 'either', value read back) | ('reject',) for declared type code T."""
     if T in INT_RANGE:
         lo, hi = INT_RANGE[T]
         return ("store", int(x)) if isinstance(x, int) and lo <= x <= hi else ("reject",)
     if T == "F":
         if isinstance(x, (int, float)) and f32(x) is not None:
-            return ("store", f32(x))
+            # grey zone: an int that needs more than a C long but still rounds to a finite binary32 may be
+            # stored (rounded) or refused with TypeError - the statement's "only if" does not force acceptance
+            return ("either" if isinstance(x, int) and not -2**63 <= x < 2**63 else "store", f32(x))
         return ("reject",)
     if T in "fs":
         return ("store", x) if type(x) is bytes and len(x) == (2 if T == "f" else 6) else ("reject",)
@@ -93,24 +95,26 @@ def expect(T, x, role):
 
 def klass(T, x):
     """Input class of the datum relative to T (part of the failure key)."""
+    if T == "O":
+        return "none" if x is None else "defaultcmp" if type(x).__lt__ is object.__lt__ else "orderable"
+    if T in "fs":
+        return "wrong-type" if type(x) is not bytes else "bytes-len-ok" if len(x) == (2 if T == "f" else 6) else "bytes-len-wrong"
     if isinstance(x, bool):
         return "bool"
     if isinstance(x, int):
-        beyond = not -2**63 <= x < (2**64 if T == "Q" else 2**63)
-        if T in INT_RANGE:
-            lo, hi = INT_RANGE[T]
-            return ("int-inrange" if lo <= x <= hi else "int-beyond-long" if beyond else
-                    "int-negative" if x < 0 and lo == 0 else "int-out-of-range")
-        return "int-beyond-long" if beyond else "int"
+        beyond = not -2**63 <= x < (2**64 if T == "Q" else 2**63)   # does not fit the C (unsigned) long long
+        if T == "F":
+            return "int-beyond-long" if beyond else "int"
+        lo, hi = INT_RANGE[T]
+        return ("int-inrange" if lo <= x <= hi else "int-beyond-long" if beyond else
+                "int-negative" if x < 0 and lo == 0 else "int-out-of-range")
     if isinstance(x, float):
+        if T != "F":
+            return "float"
         if math.isnan(x) or math.isinf(x):
             return "float-nan" if math.isnan(x) else "float-inf"
-        if T == "F":
-            return "float-over-f32" if f32(x) is None else "float-exact" if f32(x) == x else "float-inexact"
-        return "float"
-    if isinstance(x, bytes):
-        return "bytes-len%d" % len(x)
-    return {str: "str", type(None): "none", tuple: "tuple", Ord: "orderable"}.get(type(x), "defaultcmp")
+        return "float-over-f32" if f32(x) is None else "float-exact" if f32(x) == x else "float-inexact"
+    return "wrong-type"
 
 
 def grid(rng, thorough):
@@ -173,7 +177,7 @@ class Run:
                 key=key, desc="%s%s%s %s %s=%s (%s container): %s" % (fam, kind, "Py" if impl == "py" else "", entry,
                                                                      role, expr, state, desc),
                 repro={"family": fam, "kind": kind, "impl": impl, "entry": entry, "role": role, "datum": expr,
-                       "prefill": state, "sizes": [2, 3]}, script=script))
+                       "prefill": state, "sizes": [2, 3]}, script=script()))
 
 
 def snapshot(t, is_set):
@@ -222,7 +226,7 @@ def run_config(R, fam, kind, impl, G):
             return cls([k] if is_set else [(k, v)])
         elif entry == "setstate":                    # one-leaf state
             st = ((k,) if is_set else (k, v),)
-            t.__setstate__((st,) if is_tree else st)
+            t.__setstate__(((st,),) if is_tree else st)
         elif entry == "setstate-sep":                # interior state, the datum is the separator
             its = prefill(fam, None)
             b2 = leaf(*its[3])
@@ -233,9 +237,12 @@ def run_config(R, fam, kind, impl, G):
     SRC = {"setitem": "t[k] = v", "insert": "t.insert(k)" if is_set else "t.insert(k, v)", "add": "t.add(k)",
            "setdefault": "t.setdefault(k, v)", "update": "t.update([k])" if is_set else "t.update({k: v})",
            "ctor": "t = %s([k])" % cname if is_set else "t = %s([(k, v)])" % cname,
-           "setstate": "t.__setstate__(%s)" % (("(((k,),),)" if is_tree else "((k,),)") if is_set else
-                                               ("(((k, v),),)" if is_tree else "((k, v),)")),
-           "setstate-sep": "see rtc/conv_rt.py call()"}
+           "setstate": "t.__setstate__(%s)" % (("((((k,),),),)" if is_tree else "((k,),)") if is_set else
+                                               ("((((k, v),),),)" if is_tree else "((k, v),)")),
+           "setstate-sep": "L = %s\nb2 = L(); b2.__setstate__((%r,))\nb1 = L(); b1.__setstate__((%r, b2))\n"
+                           "t.__setstate__(((b1, k, b2), b1))\nprint('separator:', t.__getstate__()[0][1])" % (
+                               (leafcls.__name__,) + tuple(it[:1] if is_set else it for it in (
+                                   prefill(fam, None)[3], prefill(fam, None)[0])))}
 
     def one_write(entry, role, T, expr, x, k, v, items, state):
         """One case: the call, then the contract of the statement."""
@@ -246,7 +253,7 @@ def run_config(R, fam, kind, impl, G):
         fresh = entry in ("ctor", "setstate", "setstate-sep")
         t = cls() if fresh else build(items)
         before = snapshot(t, is_set)
-        script = head + "k = %s\nv = %s\nt = %s()\n%s%s\nprint(list(t%s))\n" % (
+        script = lambda: head + "k = %s\nv = %s\nt = %s()\n%s%s\nprint(list(t%s))\n" % (
             expr if role == "key" else repr(k), repr(v) if role == "key" else expr, cname,
             "" if fresh else "for a, b in %r: t%s\n" % (items, ".add(a)" if is_set else "[a] = b"),
             SRC[entry], "" if is_set else ".items()")
@@ -257,11 +264,10 @@ def run_config(R, fam, kind, impl, G):
             out = type(e).__name__
         after = snapshot(t, is_set)
         changed = after != before
-        R.samples.setdefault((exp[0], entry), {"container": cname, "entry": entry, "role": role, "datum": expr,
-                                               "expected": exp[0], "outcome": out or "returned",
-                                               "contents_after": repr(after[0])})
+        R.samples.setdefault(exp[0], {"container": cname, "entry": entry, "role": role, "datum": expr, "expected": exp[0],
+                                      "outcome": out or "returned", "contents_after": repr(after[0])})
         f = lambda clause, desc: R.fail(cfg, clause, role, T, x, expr, entry, desc, state, script)
-        if exp[0] == "reject":
+        if exp[0] == "reject" or (exp[0] == "either" and out is not None):
             # "anything else is rejected with TypeError before the container is modified"
             if out is None:
                 f("stored-unrepresentable" if changed else "accepted-unrepresentable",
@@ -321,8 +327,10 @@ def run_config(R, fam, kind, impl, G):
             clause = "lookup-found" if found else None
         except Exception as e:
             clause = "lookup-raises-%s" % type(e).__name__
+        R.samples.setdefault("lookup", {"container": cname, "entry": op, "datum": expr, "prefill": state,
+                                        "expected": "absence", "outcome": clause or "absent"})
         if clause:
-            script = head + "t = %s()\nfor a, b in %r: t%s\nk = %s\nprint(%s)\n" % (
+            script = lambda: head + "t = %s()\nfor a, b in %r: t%s\nk = %s\nprint(%s)\n" % (
                 cname, items, ".add(a)" if is_set else "[a] = b", expr,
                 {"contains": "k in t", "has_key": "t.has_key(k)", "get": "t.get(k, 'absent')", "getitem": "t[k]"}[op])
             R.fail(cfg, clause, "key", K, x, expr, "%s-%s" % (op, state), "expected absence", state, script)
@@ -338,6 +346,9 @@ def run_config(R, fam, kind, impl, G):
             for entry in kentries:
                 one_write(entry, "key", K, expr, x, x, GOODV[V], its, state)
             if expect(K, x, "key")[0] == "reject":
+                if its and K in INT_RANGE:           # keys a truncated / wrapped-around datum would land on
+                    lo, hi = INT_RANGE[K]
+                    its = its + [(w, GOODV[V]) for w in (lo, -1, 0, 1, hi) if lo <= w <= hi]
                 for op in ("contains", "has_key") + (() if is_set else ("get", "getitem")):
                     one_lookup(op, expr, x, its, state)
         for entry in ["ctor", "setstate"] + (["setstate-sep"] if is_tree else []):
@@ -365,8 +376,9 @@ def main():
                       "+-1e40, DBL_MAX, +-inf, nan; str of 4 lengths; bytes of length 0..8; None; object(), a plain instance, an "
                       "orderable instance, a tuple; %d seeded random ints/floats) as key and as value x {item assignment, insert, "
                       "setdefault, update, constructor, add, __setstate__ (leaf data and interior separator)} x {empty, 5 items "
-                      "(trees: 3 leaves under node sizes 2/3), overwrite} x BTree/Bucket/TreeSet/Set x C and Python, families %s; "
-                      "lookups (in, has_key, get, []) of every unrepresentable key on the empty and the filled container"
+                      "(trees: 3 leaves under node sizes 2/3), overwrite of an existing key} x BTree/Bucket/TreeSet/Set x C and Python, families %s; "
+                      "lookups (in, has_key, get, []) of every unrepresentable key on the empty and the filled container "
+                      "(integer keys: filled also holds min, -1, 0, 1, max, where a wrapped-around key would land)"
                       % (len(G), 3 if thorough else 1, 300 if thorough else 9, ",".join(H.fams())),
                 rule="case = one call with one datum of the grid as key or value on one freshly built container + the "
                      "contract of the statement (stored and reads back exactly | TypeError and unchanged contents, length and "
@@ -382,7 +394,7 @@ def main():
             for impl in ("c", "py"):
                 run_config(R, fam, kind, impl, G)
     s.distinct_nontrivial = len(R.nontrivial)
-    s.samples = [R.samples[k] for k in sorted(R.samples)][:6]
+    s.samples = [R.samples[k] for k in ("store", "reject", "lookup", "either") if k in R.samples]
     write_standin(a.out, s)
 
 
